@@ -7,6 +7,8 @@ import (
 	"strings"
 
 	"engcheck/core"
+
+	"golang.org/x/tools/go/types/typeutil"
 )
 
 func init() {
@@ -482,6 +484,38 @@ func c06Revision(c *core.Ctx) {
 			}
 			if d3 != nil && d4 != nil && len(as) == 2 {
 				ok = g.Dominates(d3.Loc, d4.Loc) && g.GuardedBy(d4.Loc, eioIs4) && !g.GuardedBy(d3.Loc, eioIs4)
+			}
+		}
+		// … or by a novel helper that returns the two constants directly: `if EIO == "4" { return 4 }; return 3`
+		if !ok && pv != nil {
+			as := assignsIn(hs, func(l ast.Expr) bool { return core.ObjOf(info, l) == types.Object(pv) })
+			if len(as) == 1 {
+				if ce, isC := ast.Unparen(as[0].Rhs).(*ast.CallExpr); isC {
+					if f, _ := typeutil.Callee(info, ce).(*types.Func); f != nil && core.IsNovel(f) {
+						if h := c.P.UnitOf(f); h != nil && h.Pkg == hs.Pkg {
+							c.Touch(h)
+							hg := h.Graph()
+							n3, n4, good := 0, 0, true
+							for _, r := range returnsIn(h) {
+								if len(r.Stmt.Results) != 1 {
+									good = false
+									continue
+								}
+								switch v, isK := core.ConstInt(h.Info(), r.Stmt.Results[0]); {
+								case isK && v == 4:
+									n4++
+									good = good && hg.GuardedBy(r.Loc, eioIs4)
+								case isK && v == 3:
+									n3++
+									good = good && !hg.GuardedBy(r.Loc, eioIs4)
+								default:
+									good = false
+								}
+							}
+							ok = good && n3 == 1 && n4 == 1
+						}
+					}
+				}
 			}
 		}
 		c.Check(R, bsHandshake+"/protocol=EIO==4?4:3→NewSocket", hs.Pos(), ok, "the session revision is 4 exactly when EIO is \"4\", and that value is given to NewSocket")
